@@ -17,6 +17,27 @@ ASSUMPTIONS = ["struct.pack('<f') of a double that is not exactly representable 
 
 def gen(ctx):
     E.gen_tables(ctx, "OblC02", "DiagC02")
+    if not getattr(ctx, "gen", {}).get("ok"):
+        return
+    # C02 end to end (decode -> encode reproduces every defined bit, every payload) for the tables of this run;
+    # uses the table theorems of OblC01.v (decoders = specification) and OblC02.v (encoders = template)
+    import re
+    import gen as G
+    ok, out = G.compile_template("OblC02rt", deps=("OblC01", "OblC02"))
+    for nm in G.theorem_names("OblC02rt"):
+        ctx.extra_obligations.append({"name": f"OblC02rt.v:{nm}", "ok": ok, "detail": out[-800:] if not ok else ""})
+    flat = " ".join(out.split())
+    m = re.search(r"=\s*\((\d+)%nat,\s*(\d+)%nat,\s*(\d+)%nat,\s*(\d+)%nat,\s*(\d+)%nat\)", flat)
+    if m:
+        ctx.notes.append(f"C02_roundtrip (decode then encode reproduces every defined bit, EVERY payload) covers {m.group(2)} of "
+                         f"{m.group(1)} encodable definitions ({m.group(3)} without FLOAT fields: encoder proved to return), "
+                         f"{m.group(5)} exact fields of {m.group(4)}")
+    m2 = re.search(r"=\s*(\[[^\]]*\])\s*:\s*list \(Z \* bool \* bool \* bool\)", flat)
+    if m2:
+        ctx.notes.append("encodable definitions outside C02_roundtrip (pgn, not fixed-layout, field side condition fails "
+                         "[wider than 48 bits / resolution], duplicate field ids): " + m2.group(1))
+    if not ok:
+        ctx.hints.append({"kind": "tables", "diag": flat[-1200:]})
 
 
 def correspond(ctx):
